@@ -65,7 +65,7 @@ SameValue(field, a, b) ==
     [] field = "key" -> LET x == ParseKey(a)  y == ParseKey(b) IN x.ok /\ y.ok /\ x.k = y.k
     [] field \in {"value", "meter"} -> LET x == ParseRat(a)  y == ParseRat(b) IN x.ok /\ y.ok /\ x.r = y.r
     [] field = "velocity" -> a = b /\ a \in Dynamics
-    [] field = "bpm" -> a = b
+    [] field = "bpm" -> AllDigits(a) /\ AllDigits(b) /\ NatOfDigits(a) = NatOfDigits(b)
     [] OTHER -> FALSE
 ScalarInv == R.kind = "scalar" =>
    /\ R.ok /\ Len(R.outs) = Len(R.ins)
